@@ -92,11 +92,56 @@ def units(tier, seed):
     out = [{"space": "base", "old": old} for old in edscript.all_lists(sym, MAXLEN[tier])]
     out += [{"space": "ext", "old": old} for old in edscript.all_lists(sym + LOOKALIKES, EXT_MAXLEN)]
     out += [{"space": "look", "old": old} for old in edscript.all_lists(sym[:1] + LOOKALIKES2, LOOK_MAXLEN)]
+    # files long enough for two-digit addresses (9,10c / 10,12d / 12a): one and two hunks around lines 9..12 and line 1
+    out += [{"space": "long", "old": ["l%d\n" % i for i in range(1, LONG_LINES + 1)], "first": h}
+            for h in range(len(long_hunks()))]
     return out
 
 
+LONG_LINES = 12
+
+
+def long_hunks():
+    """(first line, last line, replacement lines): delete/change ranges and insertions (first > last) near the
+    one-digit/two-digit boundary, at the very top and at the very end"""
+    hs = []
+    for i in (1, 8, 9, 10, 11, 12):
+        for j in (i, i + 1, i + 3):
+            if j > LONG_LINES:
+                continue
+            for rep in ([], ["x\n"], ["x\n", "y\n"]):
+                hs.append((i, j, rep))
+    for after in (0, 8, 9, 10, 11, 12):
+        for rep in (["x\n"], ["x\n", "y\n"]):
+            hs.append((after + 1, after, rep))
+    return hs
+
+
+def long_news(old, first):
+    """all results of applying hunk `first` alone and together with every later, non-overlapping hunk"""
+    hs = long_hunks()
+
+    def apply(lines, hunks):
+        out = list(lines)
+        for i, j, rep in sorted(hunks, key=lambda h: -h[0]):
+            out[i - 1:j] = rep
+        return out
+    h1 = hs[first]
+    res = [apply(old, [h1])]
+    lo1, hi1 = h1[0], max(h1[1], h1[0] - 1)
+    for h2 in hs[first + 1:]:
+        lo2, hi2 = h2[0], max(h2[1], h2[0] - 1)
+        if hi1 < lo2 - 1 or hi2 < lo1 - 1:
+            res.append(apply(old, [h1, h2]))
+    uniq = []
+    for r in res:
+        if r != old and r not in uniq:
+            uniq.append(r)
+    return uniq
+
+
 def unit_cost(u, tier):
-    return {"base": 400, "ext": 150, "look": 70}[u["space"]] + len(u["old"])
+    return {"base": 400, "ext": 150, "look": 70, "long": 120}[u["space"]] + len(u["old"])
 
 
 # ------------------------------------------------------------------------------------------------ execution
@@ -191,6 +236,8 @@ def run_unit(u, tier, seed):
     old = u["old"]
     if u["space"] == "base":
         news = edscript.all_lists(sym, MAXLEN[tier])
+    elif u["space"] == "long":
+        news = long_news(old, u["first"])
     elif u["space"] == "look":
         news = edscript.all_lists(sym[:1] + LOOKALIKES2, LOOK_MAXLEN)
         if not _has_lookalike2(old):
@@ -201,7 +248,7 @@ def run_unit(u, tier, seed):
             news = [n for n in news if _has_lookalike(n)]
     # the second look-alike space uses the model's script only
     differ = edscript.DiffE() if edscript.have_diff() and u["space"] != "look" else None
-    part.max_depth = 2 * {"base": MAXLEN[tier], "ext": EXT_MAXLEN, "look": LOOK_MAXLEN}[u["space"]]
+    part.max_depth = 2 * {"base": MAXLEN[tier], "ext": EXT_MAXLEN, "look": LOOK_MAXLEN, "long": LONG_LINES}[u["space"]]
 
     def run(case, outcome, nontrivial):
         bad = exec_case(case)
